@@ -18,10 +18,10 @@ CHECKS = {
          "The float32 xFilesFactor comparison is a named law validated on boundary bit patterns.",
          "Lean 4 theorems (case analysis of the step, refinement of the work-list loop) + raw-slot correspondence after every write", "§5 C02"),
  "C03": ("Acceptance, routing and the batch partition are Lean theorems over lists for all batches: the batch update equals per-archive writes of exactly the right sub-lists "
-         "of the stably sorted batch; stable-sort uniqueness gives order independence; the point supplied last wins among equal timestamps. Closed form of the acceptance test inside the clock zone.",
+         "of the stably sorted batch; stable-sort uniqueness gives order independence; the point supplied last wins among equal timestamps. Closed form of the acceptance test inside the clock zone. An accepted update never fails for another reason: on files satisfying the invariant every single and batch update with times in the zone returns ok, over every history from Create (C03S.accepted_history_succeeds).",
          "Lean 4 theorems (list induction: stable insertion sort, span of a sorted list, filter algebra) + correspondence check on shuffled batches", "§5 C03"),
  "C04": ("The fetch shape is a function of (archive list, id, window, clock) only; failure, absence and the closed form of bounds/step/length are Lean theorems "
-         "(closed form inside the zone of 32-bit arithmetic; outside it the wrap-around is modelled faithfully and exercised), and the executed fetch has the planned shape whether or not the archive was ever written.",
+         "(closed form inside the zone of 32-bit arithmetic; outside it the wrap-around is modelled faithfully and exercised), and the executed fetch has the planned shape whether or not the archive was ever written; two fetches of one archive agree at every interval common to their windows (windows_agree).",
          "Lean 4 theorems (case analysis + omega over faithful uint32/int32 arithmetic) + model/implementation correspondence check", "§5 C04"),
  "C05": ("The disk-vs-view state machine: disk changes only at Sync, abandoning after any prefix leaves the last synced image, every library write lands inside an archive "
          "region so header and length are fixed; after Sync another Open returns the very handle - for created, re-created and opened files (what Open accepts is the encoding of what it returns); "
@@ -49,7 +49,7 @@ CHECKS = {
 MORE = {
  "C08": ("Lean theorems about the command model: only the destination changes, a missing destination is created, mismatch / no difference write nothing, written points are source points; "
          "per archive and for the whole run every interval of the window reads a value Equal to the source's afterwards (one archive selected too); and command to command - copy with NaN values included and all "
-         "archives, then diff of the same pair over the same window at the same clock, ends ok with no record. Hypotheses: window inside the clock zone, destination satisfying the invariant of files whispertool writes. "
+         "archives, then diff of the same pair over the same window at the same clock, ends ok with no record, whether the destination existed or the copy created it. Hypotheses: window inside the clock zone, destination satisfying the invariant of files whispertool writes. "
          "Also asserted on the real code on every run by post-checks.",
          "Lean 4 theorems (ring-level copy theorem composed with the invariant, reopening and Diff) + correspondence check with post-conditions on the real code", "§5 C08"),
  "C09": ("Exactness, cleanliness, symmetry and the missing-file / mismatch / glob verdicts (one differing file anywhere makes the run report a difference) are Lean theorems about the diff model for all series; "
